@@ -175,8 +175,13 @@ class World:
                         op['offer'] = ('val', self.wire(pn, v))
                         op['racy'] = True
                     elif kind == 'read_err':
-                        script[(pn, ident())] = E.HardwareError(f'hw{u}')
-                        op['offer'] = ('err', 'HardwareError', f'hw{u}')
+                        if u % 3 == 0:
+                            # an instrument error code beside the text (several arguments, not all of them texts)
+                            script[(pn, ident())] = E.HardwareError(-100 - u, f'hw{u}')
+                            op['offer'] = ('err', 'HardwareError', repr((-100 - u, f'hw{u}')))
+                        else:
+                            script[(pn, ident())] = E.HardwareError(f'hw{u}')
+                            op['offer'] = ('err', 'HardwareError', f'hw{u}')
                     elif kind == 'read_sameerr':
                         script[(pn, ident())] = E.HardwareError('same')
                         op['offer'] = ('err', 'HardwareError', 'same')
@@ -301,7 +306,7 @@ class World:
                     r.violation('C05/no-initial-update', f'late observer got no update for {pn}', case)
                     return
                 last = seq[-1]
-                final = ('err', pobj.readerror.name, str(pobj.readerror)) if pobj.readerror else ('val', json.loads(json.dumps(pobj.export_value())))
+                final = ('err', pobj.readerror.name, safe_str(pobj.readerror)) if pobj.readerror else ('val', json.loads(json.dumps(pobj.export_value())))
                 got = ('err', last[2][0], last[2][1]) if last[0] == 'error_update' else ('val', last[2][0])
                 if got != final:
                     r.violation('C05/replay-differs-from-cache/late-observer', f'late/{pn}: last message {got}, cache {final}', dict(case, param=pn))
@@ -324,7 +329,7 @@ class World:
                     return
                 last = seq[-1][1]
                 if pobj.readerror:
-                    final = ('err', pobj.readerror.name, str(pobj.readerror))
+                    final = ('err', pobj.readerror.name, safe_str(pobj.readerror))
                 else:
                     final = ('val', json.loads(json.dumps(pobj.export_value())))
                 got = ('err', last[2][0], last[2][1]) if last[0] == 'error_update' else ('val', last[2][0])
@@ -426,6 +431,14 @@ class World:
 SPECIAL = [1.5, float('nan'), float('nan'), 2.0, float('inf'), float('-inf'), 0.0, -0.0, 1.5, 1e308, 5e-324,
            # neighbours closer than the resolution of the datatype: different values all the same
            100.0, 100.000003, 100.000006, 100.000003, 100.0, 1e-300, 1.0000001e-300]
+
+
+def safe_str(e):
+    """the text of a cached error; an error whose text can not be made is an observation, not a harness failure"""
+    try:
+        return str(e)
+    except Exception as x:
+        return f'<str() of the cached error raises {type(x).__name__}>'
 
 
 def same_float(a, b):
